@@ -1337,7 +1337,9 @@ func (c *c08Run) runShapes(m *c08Module, normal []*c08Pkg) {
 func runC08(r *core.Run) (bool, string) {
 	r.SetRule("one evaluation = one generated package whose emitted header, footer, Require lines and output path were compared with the reference computed from its import graph " +
 		"(FFI table and builtin table written out in the checker; graph known by construction and cross-checked with `go list -deps`); " +
-		"packages reaching two FFIs are judged on refusal (own invocation each). distinct = (graph shape incl. carrier pair and file layout, expected FFI set, number of files, number of required imports capped at 3)")
+		"packages reaching two FFIs are judged on refusal (own invocation each). " +
+		"Library-package family (c08libs.go): one client per exported member of every importable package of the goose, primitive and std modules and of look-alike user packages, " +
+		"then import forms, a second FFI import and combinations; a client goose refuses counts as one evaluation (rejected), a translated one is also judged by the qualified identifiers of its body. distinct = (graph shape incl. carrier pair and file layout, expected FFI set, number of files, number of required imports capped at 3)")
 	r.Assume("`go list -deps` reports the import graph the Go toolchain uses")
 	r.Assume("the grove_ffi package is a local stub module at import path github.com/mit-pdos/gokv/grove_ffi (FFI-ness is by import path)")
 	bin, err := gooseBin(r, false)
@@ -1360,6 +1362,17 @@ func runC08(r *core.Run) (bool, string) {
 	}
 	var errs []string
 	var emu sync.Mutex
+	// the library-package family (c08libs.go) runs beside the generated modules
+	libsDone := make(chan struct{})
+	go func() {
+		defer close(libsDone)
+		if err := c.runLibraryFamily(); err != nil {
+			emu.Lock()
+			errs = append(errs, err.Error())
+			emu.Unlock()
+			r.Inconclusive("module-setup-failed")
+		}
+	}()
 	core.Parallel(len(mods), 4, func(i int) {
 		if err := c.runModule(mods[i]); err != nil {
 			emu.Lock()
@@ -1368,6 +1381,7 @@ func runC08(r *core.Run) (bool, string) {
 			r.Inconclusive("module-setup-failed")
 		}
 	})
+	<-libsDone
 	r.Set("modules", len(mods))
 	if len(errs) > 0 {
 		r.Set("module_setup_errors", errs)
@@ -1379,6 +1393,12 @@ func runC08(r *core.Run) (bool, string) {
 	}
 	if r.GetCount("two_ffi_packages_judged") < 5 {
 		return false, "fewer than 5 two-FFI packages judged"
+	}
+	if n := r.GetCount("library_family_library_packages_enumerated"); n < 4 {
+		return false, fmt.Sprintf("only %d importable packages found in the support-library modules (floor 4) %v", n, errs)
+	}
+	if n := r.GetCount("library_family_clients_translated"); n < 30 {
+		return false, fmt.Sprintf("only %d clients of the library-package family translated (floor 30) %v", n, errs)
 	}
 	return true, ""
 }
